@@ -175,7 +175,11 @@ class _Capture(logging.Filter):
 class Written:
     """A log produced by the real writer + what was logged (ids 1..N in write order)."""
 
+    _uids = 0
+
     def __init__(self, spec: dict[str, Any], zst: Path, seen: list[dict[str, Any]]) -> None:
+        Written._uids += 1
+        self.uid = Written._uids
         self.spec = spec
         self.zst = zst
         self.seen = seen
@@ -511,67 +515,124 @@ def run_hr_session(c: Container, o: dict[str, Any], *, argv: list[str] | None = 
 # ----------------------------------------------------------------------------
 # TLC batches
 
+def _tlc_chunk(b: dict[str, Any]) -> Any:
+    return tlc.validate_batch("Trace_Penlog", "Trace_Penlog.cfg", b, timeout=1800,
+                              env={"JAVA_TOOL_OPTIONS": "-Xss256m"}, heap="3g")
+
+
 class Batch:
-    """Collects logs (once) and sessions; validated by Trace_Penlog in parallel JVMs."""
+    """Collects sessions and streams them to TLC (Trace_Penlog) in chunks, in parallel JVMs,
+    while the real code is still being driven.  Accepted sessions are dropped once their
+    verdict is known (only counters, the rejected ones and a few samples are kept)."""
 
-    def __init__(self) -> None:
-        self.logs: list[list[dict[str, int]]] = []
-        self._log_ix: dict[int, int] = {}
-        self.traces: list[dict[str, Any]] = []
-        self.meta: list[dict[str, Any]] = []
+    def __init__(self, *, chunk: int = 5000, jobs: int = 4) -> None:
+        self.chunk = chunk
+        self.pool = ThreadPoolExecutor(max_workers=jobs)
+        self.pending: list[tuple[dict[str, Any], Any, dict[str, Any], list[str] | None]] = []
+        self.futs: list[tuple[Any, list[tuple[dict[str, Any], Any, dict[str, Any], list[str] | None]]]] = []
+        self.n = 0
+        self.ops = 0
+        self.content_pairs = 0
+        self.keys: set[int] = set()
+        self.nontrivial: set[int] = set()
+        self.origins: dict[str, int] = {}
+        # filled by finish()
+        self.labels: dict[int, str] = {}          # tid -> label, only for rejected sessions
+        self.bad: list[tuple[dict[str, Any], dict[str, Any], tuple[str, int, str, int]]] = []
+        self.samples: list[tuple[dict[str, Any], dict[str, Any], str]] = []
+        self.accepted_seq: dict[str, Any] | None = None
+        self.accepted_len: dict[str, Any] | None = None
+        self.accepted_content: dict[str, Any] | None = None
+        self.unspecified = 0
+        self.results: list[Any] = []
 
-    def add(self, w: Written, sess: dict[str, Any], meta: dict[str, Any]) -> int:
-        ix = self._log_ix.get(id(w))
-        if ix is None:
-            self.logs.append(w.log)
-            ix = len(self.logs)
-            self._log_ix[id(w)] = ix
-        tid = len(self.traces)
-        self.traces.append({"id": tid, "lg": ix, "open": sess["open"], "ops": sess["ops"],
-                            "content": sess.get("content", [])})
-        m = dict(meta)
-        m["n"] = w.n
-        m["spec"] = w.spec
-        if "argv" in sess:
-            m["argv"] = sess["argv"]
-        self.meta.append(m)
+    def add(self, w: Written | list[dict[str, int]], sess: dict[str, Any], meta: dict[str, Any]) -> int:
+        """`meta` objects may be shared between sessions (they are not copied)."""
+        tid = self.n
+        self.n += 1
+        t = {"id": tid, "open": sess["open"], "ops": sess["ops"], "content": sess.get("content", [])}
+        self.ops += len(t["ops"]) + 1
+        self.content_pairs += len(t["content"])
+        argv = sess.get("argv")
+        if isinstance(w, Written):
+            key = hash((w.uid, meta.get("container"), meta.get("prefix"), meta.get("api"),
+                        tuple((o["op"]["mode"], o["op"]["p"], o["op"]["n"], o["op"]["off"]) for o in t["ops"]),
+                        tuple(argv) if argv else None))
+            if key not in self.keys:
+                self.keys.add(key)
+                o1 = t["ops"][0]["op"] if len(t["ops"]) == 1 else None
+                plain_fwd = o1 is not None and o1["mode"] == "fwd" and o1["off"] == 0 and o1["p"] == 8
+                if w.n > 0 and (not plain_fwd or (meta.get("container"), meta.get("prefix")) != ("zst", "all")):
+                    self.nontrivial.add(key)
+        og = meta.get("origin", "?")
+        self.origins[og] = self.origins.get(og, 0) + 1
+        self.pending.append((t, w, meta, argv))
+        if len(self.pending) >= self.chunk:
+            self.flush()
         return tid
 
-    def add_raw(self, log: list[dict[str, int]], sess: dict[str, Any], meta: dict[str, Any]) -> int:
-        self.logs.append(log)
-        tid = len(self.traces)
-        self.traces.append({"id": tid, "lg": len(self.logs), "open": sess["open"], "ops": sess["ops"],
-                            "content": sess.get("content", [])})
-        self.meta.append(dict(meta))
-        return tid
+    def flush(self) -> None:
+        if not self.pending:
+            return
+        items, self.pending = self.pending, []
+        logs: list[list[dict[str, int]]] = []
+        ix: dict[int, int] = {}
+        traces = []
+        for t, w, _m, _a in items:
+            k = ix.get(id(w))
+            if k is None:
+                logs.append(w.log if isinstance(w, Written) else w)
+                k = len(logs)
+                ix[id(w)] = k
+            traces.append(dict(t, lg=k))
+        self.futs.append((self.pool.submit(_tlc_chunk, {"logs": logs, "traces": traces}), items))
 
+    def finish(self) -> None:
+        """Wait for TLC; every session must have received a verdict."""
+        self.flush()
+        try:
+            for fut, items in self.futs:
+                res = fut.result()
+                self.results.append(res)
+                verdicts: dict[int, tuple[str, int, str, int]] = {}
+                for p in res.prints:
+                    if isinstance(p, list) and len(p) == 6 and p[0] == "V":
+                        verdicts[p[1]] = (p[2], p[3], p[4], p[5])
+                missing = [t["id"] for t, _w, _m, _a in items if t["id"] not in verdicts]
+                if missing:
+                    raise Machinery(f"TLC produced no verdict for {len(missing)} sessions (first id {missing[0]}):\n"
+                                    + res.out[-2000:])
+                for k, (t, w, m, argv) in enumerate(items):
+                    v = verdicts[t["id"]]
+                    self.unspecified += v[3]
+                    info = dict(m)
+                    info["n"] = w.n if isinstance(w, Written) else len(w)
+                    info["spec"] = w.spec if isinstance(w, Written) else None
+                    info["argv"] = argv
+                    info["log"] = (w.log if isinstance(w, Written) else w)[:8]
+                    if v[0] != "ok":
+                        self.labels[t["id"]] = v[0]
+                        self.bad.append((t, info, v))
+                        continue
+                    if k == 0 and len(self.samples) < 12:
+                        self.samples.append((t, info, v[0]))
+                    last = t["ops"][-1] if t["ops"] else None
+                    if last is not None and self.accepted_seq is None and last["res"]["t"] == "Seq" \
+                            and len(last["res"]["ids"]) >= 2 and last["op"]["mode"] in ("fwd", "head") \
+                            and last["op"]["p"] >= 0 and isinstance(w, Written):
+                        self.accepted_seq = dict(t, _log=w.log)
+                    if last is not None and self.accepted_len is None and last["res"]["t"] == "Len" \
+                            and isinstance(w, Written):
+                        self.accepted_len = dict(t, _log=w.log)
+                    if self.accepted_content is None and t["content"] and t["content"][0]["w"] \
+                            and isinstance(w, Written):
+                        self.accepted_content = dict(t, _log=w.log)
+            self.futs = []
+        finally:
+            self.pool.shutdown(wait=True, cancel_futures=True)
 
-def validate(batch: Batch, *, chunk: int = 12000, jobs: int = 4) -> tuple[dict[int, tuple[str, int, str, int]], list[Any]]:
-    """TLC decides: id -> (label, k, how, n_unspecified)."""
-    chunks = []
-    for off in range(0, len(batch.traces), chunk):
-        sub = batch.traces[off:off + chunk]
-        used = sorted({t["lg"] for t in sub})
-        remap = {g: i + 1 for i, g in enumerate(used)}
-        chunks.append({"logs": [batch.logs[g - 1] for g in used],
-                       "traces": [dict(t, lg=remap[t["lg"]]) for t in sub]})
-
-    def one(b: dict[str, Any]) -> Any:
-        return tlc.validate_batch("Trace_Penlog", "Trace_Penlog.cfg", b, timeout=1800,
-                                  env={"JAVA_TOOL_OPTIONS": "-Xss256m"}, heap="3g")
-
-    with ThreadPoolExecutor(max_workers=jobs) as ex:
-        results = list(ex.map(one, chunks))
-    verdicts: dict[int, tuple[str, int, str, int]] = {}
-    for res in results:
-        for p in res.prints:
-            if isinstance(p, list) and len(p) == 6 and p[0] == "V":
-                verdicts[p[1]] = (p[2], p[3], p[4], p[5])
-    missing = [t["id"] for t in batch.traces if t["id"] not in verdicts]
-    if missing:
-        raise Machinery(f"TLC produced no verdict for {len(missing)} sessions (first id {missing[0]}):\n"
-                        + (results[-1].out[-2000:] if results else ""))
-    return verdicts, results
+    def label(self, tid: int) -> str:
+        return self.labels.get(tid, "ok")
 
 
 def workdir() -> Path:
